@@ -567,17 +567,28 @@ class Frame(Widget, WidgetContainerMixin, typing.Generic[BodyWidget, HeaderWidge
 
         fp = self.focus_position
         (maxcol, maxrow) = size
-        (hrows, frows), _ = self.frame_top_bottom(size, True)
+        (hrows, frows), (orig_hrows, orig_frows) = self.frame_top_bottom(size, True)
 
+        # a header or footer that does not fit is shown through a Filler (see render)
         if fp == "header":
             row_adjust = 0
-            coords = self.header.get_cursor_coords((maxcol,))
+            if not hrows:
+                coords = None
+            elif hrows < orig_hrows:
+                coords = Filler(self.header, VAlign.TOP).get_cursor_coords((maxcol, hrows))
+            else:
+                coords = self.header.get_cursor_coords((maxcol,))
         elif fp == "body":
             row_adjust = hrows
             coords = self.body.get_cursor_coords((maxcol, maxrow - hrows - frows))
         else:
             row_adjust = maxrow - frows
-            coords = self.footer.get_cursor_coords((maxcol,))
+            if not frows:
+                coords = None
+            elif frows < orig_frows:
+                coords = Filler(self.footer, VAlign.BOTTOM).get_cursor_coords((maxcol, frows))
+            else:
+                coords = self.footer.get_cursor_coords((maxcol,))
 
         if coords is None:
             return None
